@@ -28,8 +28,10 @@ def summary_form(func, env0=None):
     """(canonical result, sorted canonical guards) or None if the function cannot be summarised"""
     fn = _unrolled(func)
     sm = summarize(fn, env0=env0)
-    if sm.unsupported or sm.result is None:
+    if sm.unsupported or (sm.result is None and sm.always_raises):
         return None
+    if sm.result is None:
+        sm.result = ast.Constant(None)          # a procedure: falls off its end
     try:
         # what the function does to the objects it was handed belongs to its behaviour: the final term of every parameter that
         # is not simply the parameter itself (an in-place change, a call that may write it)
